@@ -792,7 +792,15 @@ def sequential_result(kernel, tools, flag_deps=False):
     finally:
         kd.KernelDG.INSTRUCTION_THRESHOLD = saved
     res, defects = project_lcds(dg.get_loopcarried_dependencies(), kernel)
-    return {"result": res, "defects": defects, "timed_out": bool(dg.timed_out)}
+    return {"result": res, "defects": defects, "timed_out": bool(dg.timed_out),
+            "order": list(dg.get_loopcarried_dependencies().keys())}
+
+
+def same_order(lcd_dict, seq_order):
+    """the entries common to both dictionaries are listed in the same order (the report prints them in
+    dictionary order)"""
+    common = set(lcd_dict) & set(seq_order)
+    return [k for k in lcd_dict if k in common] == [k for k in seq_order if k in common]
 
 
 STATE_FIELDS = ("cpc", "wst", "wpos", "shared", "timedOut", "joined")
@@ -854,6 +862,7 @@ def replay_one(path_states, row, kc, variant=0, case_id="r2"):
             "id": case_id, "kind": "src", "n": row["n"], "nw": par["nw"], "to": bool(par["to"]),
             "src": row["src"], "lat": row["lat"], "events": events,
             "obs": {"result": res, "seq": seq["result"], "timed_out": bool(rp.dg.timed_out),
+                    "order": same_order(rp.dg.get_loopcarried_dependencies(), seq["order"]),
                     "killed": [p.w for p in rp.f.procs if p.killed], "orphans": len(rp.orphans()),
                     "dups": len(defects) + len(seq["defects"])},
         }
@@ -920,11 +929,17 @@ def run_real(kernel, tools, nw, timeout, delays=None, flag_deps=False, threshold
     m1 = _time.monotonic_ns()
     wall = _time.time() - t0
     left = [c for c in children_of(me) if c[0] not in before]
-    active = [p.pid for p in multiprocessing.active_children() if p.pid not in before]
+    if any(c[1] != "Z" for c in left):
+        # a process that was sent SIGKILL and joined is gone; anything else gets 0.3 s to disappear
+        _time.sleep(0.3)
+        left = [c for c in children_of(me) if c[0] not in before]
+    zombies = [c for c in left if c[1] == "Z"]
+    left = [c for c in left if c[1] != "Z"]
+    active = [p.pid for p in multiprocessing.active_children() if p.pid not in before and p.pid not in [z[0] for z in zombies]]
     raw = rec.log.read()
     rec.log.close()
     obs = {"wall": wall, "error": err, "calib": calib, "nw": nw, "timeout": timeout, "n": len(kernel),
-           "left": left, "active": active, "raw": raw, "copied": rec.copied, "t0": m0, "t1": m1,
+           "left": left, "active": active, "zombies": len(zombies), "raw": raw, "copied": rec.copied, "t0": m0, "t1": m1,
            "exitcodes": [p.p.exitcode for p in rec.procs], "parallel": bool(rec.procs),
            "dg2": grabbed.get("dg"), "offset": grabbed.get("offset")}
     if dg is not None:
@@ -1014,6 +1029,7 @@ def real_case(cid, obs, kernel, table, ids, seq=None, kind="cyc", edges=None, sa
     events.append({"e": "return", "result": robs, "timed_out": obs["timed_out"]})
     c = {"id": cid, "kind": kind, "n": obs["n"], "nw": obs["nw"], "to": obs["timeout"] != -1, "events": events,
          "obs": {"result": robs, "timed_out": obs["timed_out"],
+                 "order": True if seq is None else same_order(obs["lcd"], seq["order"]),
                  "killed": [w for w, x in enumerate(obs["exitcodes"]) if x is not None and x < 0],
                  "orphans": len(obs["left"]) + len([a for a in obs["active"] if a not in [l[0] for l in obs["left"]]]),
                  "dups": len(obs["defects"])}}
@@ -1067,7 +1083,7 @@ def braid_text(n, choices, rnd=None, period=4, pads=()):
 # shared check machinery
 # ------------------------------------------------------------------------------------------
 C19_ONLY = {"A:warning-without-cut", "A:cut-without-warning", "A:warning-without-timeout",
-            "A:killed-without-timeout", "A:worker-left-behind"}
+            "A:killed-without-timeout", "A:worker-left-behind", "A:cut-before-deadline"}
 
 
 def parse_error_trace(raw):
@@ -1088,7 +1104,7 @@ def _replay_chunk(idx):
     kc = _JOB.setdefault("kc", KernelCache(tools))
     out = []
     for i in idx:
-        ps = [states[x] for x in paths[i]]
+        ps = [x if isinstance(x, dict) else states[x] for x in paths[i]]
         kid = ps[0]["par"]["kid"]
         r = replay_one(ps, rows[(kid[0], kid[1])], kc, variant=i % 6, case_id="%s-%d" % (_JOB["tag"], i))
         r["i"] = i
@@ -1137,6 +1153,59 @@ def replay_graph(run, cfg, seed, tag, limit=None, procs=8, timeout=600):
     return res, stats, (states, paths)
 
 
+def replay_simulated(run, cfg, seed, tag, num=200, depth=120, procs=8, timeout=600):
+    """R2 for larger constants: random behaviours generated by TLC (-simulate), replayed like the
+    paths of the transition cover.  Only behaviours that reach a terminal state are used."""
+    import glob
+    import re
+    import shutil
+
+    from harness import tlc
+
+    d = os.path.join(env.WORK, "scratch", "lcds-%s-%d" % (tag, os.getpid()))
+    os.makedirs(d, exist_ok=True)
+    behaviours = []
+    try:
+        out = os.path.join(d, "table.ndjson")
+        r = tlc.run_tlc("MC_LCDSearch", cfg, env={"OUTFILE": out}, workers=4, timeout=timeout,
+                        simulate="file=%s,num=%d" % (os.path.join(d, "sim"), num), depth=depth, seed=seed)
+        r.distinct = r.distinct or 0
+        m = re.search(r"(\d+) states checked, (\d+) traces generated", r.raw)
+        sim_states = int(m.group(1)) if m else 0
+        rows = {(x["fam"], x["n"]): x for x in tlc.read_emitted(out)}
+        for f in sorted(glob.glob(os.path.join(d, "sim_*"))):
+            with open(f) as fh:
+                txt = fh.read()
+            sts = []
+            for block in re.split(r"STATE_\d+ ==\s*\n", txt)[1:]:
+                body = block.split("\n\n")[0]
+                st = parse_state_text(body.strip("\n"))
+                if not sts or st != sts[-1]:
+                    sts.append(st)
+            if sts and sts[-1]["cpc"] == "done":
+                behaviours.append(sts)
+    finally:
+        shutil.rmtree(d, ignore_errors=True)
+    tools = synthetic_env()
+    _JOB.clear()
+    _JOB.update(states={}, rows=rows, paths=behaviours, tools=tools, tag=tag)
+    idx = list(range(len(behaviours)))
+    chunks = [c for c in (idx[i::procs * 2] for i in range(procs * 2)) if c]
+    t0 = _time.time()
+    with multiprocessing_pool(procs) as pool:
+        res = [x for part in pool.map(_replay_chunk, chunks) for x in part]
+    res.sort(key=lambda x: x["i"])
+    stats = {"cfg": cfg, "simulated_states": sim_states, "behaviours_to_terminal_state": len(behaviours),
+             "replay_wall_s": round(_time.time() - t0, 2), "steps_compared": sum(x["steps"] for x in res)}
+    return res, stats
+
+
+def multiprocessing_pool(procs):
+    import multiprocessing
+
+    return multiprocessing.get_context("fork").Pool(procs)
+
+
 def validate_cases(run, pid, cases, meta, trace_cfg, source, timeout=900):
     """Trace_LCDSearch over the cases; A-rejections -> run.fail, B-rejections -> run.divergence.
     meta: case id -> dict (kernel class, rendered text, ...) stored in replay files."""
@@ -1151,6 +1220,7 @@ def validate_cases(run, pid, cases, meta, trace_cfg, source, timeout=900):
     run.add_traces(len(cases))
     byid = {c["id"]: c for c in cases}
     other = []
+    not_a_behaviour = set(cid for cid, clause, rest in rejects if clause.startswith("B:"))
     for cid, clause, rest in rejects:
         c = byid[cid]
         m = meta.get(cid, {})
@@ -1159,6 +1229,11 @@ def validate_cases(run, pid, cases, meta, trace_cfg, source, timeout=900):
                 other.append((cid, clause))
                 continue
             sig = "%s:%s:%s:%s" % (pid, clause[2:], source, m.get("class", "?"))
+            if clause == "A:warning-without-cut":
+                # a known finding only if the recorded execution is exactly a behaviour of the state
+                # machine with the named deviation switched on (DESIGN 3.5)
+                why = "DeadlineTestFirst" if (trace_cfg == "Trace_LCDSearch" and cid not in not_a_behaviour) else "unexplained"
+                sig = "%s:%s:%s:%s:%s" % (pid, clause[2:], why, source, m.get("class", "?"))
             what = "%s on %s (nw=%d, timeout %s): timed_out=%s killed=%s result %d LCDs" % (
                 clause[2:], m.get("class", cid), c["nw"], "finite" if c["to"] else "-1", c["obs"]["timed_out"],
                 c["obs"]["killed"], len(c["obs"]["result"]))
@@ -1166,6 +1241,8 @@ def validate_cases(run, pid, cases, meta, trace_cfg, source, timeout=900):
             if len(json.dumps(c)) > 200000:
                 small = {k: v for k, v in c.items() if k not in ("cyc", "events", "E", "X")}
             run.fail(sig, what, {"case": small, "meta": m, "source": source, "trace_cfg": trace_cfg})
+        elif clause.startswith("X:"):
+            other.append((cid, clause))
         else:
             run.divergence(clause, {"id": cid, "detail": rest, "class": m.get("class")})
     return other
